@@ -1,6 +1,7 @@
 package gen
 
 import (
+	_ "embed"
 	"encoding/json"
 	"hash/adler32"
 	"hash/crc32"
@@ -77,6 +78,28 @@ func hashOf(name string, s string) uint32 {
 
 var castagnoli = crc32.MakeTable(crc32.Castagnoli)
 
+// collide64JSON holds collisions of the 64-bit FNV-1a / FNV-1 hashes among plain four-component versions, found once
+// with cmd/collide64 (parallel Pollard rho with distinguished points, ~2^32.5 evaluations per pair) and committed: a
+// table validated by a 64-bit digest alone ("no need to compare the key") is wrong for exactly such pairs, and nobody
+// meets one by chance. FNV is an iterated hash, so every common suffix keeps the collision.
+//
+//go:embed collide64.json
+var collide64JSON []byte
+
+func collide64Pairs() []CollisionPair {
+	var base []CollisionPair
+	if json.Unmarshal(collide64JSON, &base) != nil {
+		return nil
+	}
+	out := append([]CollisionPair{}, base...)
+	for _, p := range base {
+		for _, sfx := range []string{".7", "a1", "rc2", ".post1", "-rc1", "+local.1", "-1", "_p1", ".0", "-SNAPSHOT"} {
+			out = append(out, CollisionPair{p.Hash + "+suffix", p.A + sfx, p.B + sfx})
+		}
+	}
+	return out
+}
+
 // CollisionPair is two distinct plain versions with the same 32-bit hash under Hash.
 type CollisionPair struct {
 	Hash string `json:"hash"`
@@ -101,7 +124,7 @@ func CollidingPairs(prefix string) []CollisionPair {
 	}
 	var file string
 	if d := os.Getenv("VERIF_CACHE"); d != "" {
-		file = filepath.Join(d, "collide.v2."+strconv.Itoa(len(prefix))+prefix+".json")
+		file = filepath.Join(d, "collide.v3."+strconv.Itoa(len(prefix))+prefix+".json")
 		if b, err := os.ReadFile(file); err == nil {
 			var p []CollisionPair
 			if json.Unmarshal(b, &p) == nil && len(p) > 0 {
@@ -111,6 +134,9 @@ func CollidingPairs(prefix string) []CollisionPair {
 		}
 	}
 	p := computeCollisions(prefix)
+	if prefix == "" {
+		p = append(p, collide64Pairs()...)
+	}
 	collideCache[prefix] = p
 	if file != "" {
 		if b, err := json.Marshal(p); err == nil {
@@ -182,9 +208,24 @@ func CollisionFamily(eco string, r *rand.Rand, k int) []string {
 	var out []string
 	for ; k > 0; k-- {
 		p := ps[r.IntN(len(ps))]
+		if r.IntN(3) == 0 { // one draw in three from the (few) 64-bit pairs at the end of the list
+			if n64 := len(collide64Cached()); n64 > 0 && CollisionPrefix(eco) == "" && len(ps) >= n64 {
+				p = ps[len(ps)-n64+r.IntN(n64)]
+			}
+		}
 		out = append(out, p.A, p.B)
 	}
 	return out
+}
+
+var (
+	c64once sync.Once
+	c64     []CollisionPair
+)
+
+func collide64Cached() []CollisionPair {
+	c64once.Do(func() { c64 = collide64Pairs() })
+	return c64
 }
 
 // ---------------------------------------------------------------------------------------------------------------
